@@ -76,7 +76,7 @@ fn check(plan: &Plan, out: &RunOut) -> CheckOut {
     check_no_panic(&mut co, "C07", out);
     check_only_wellformed(&mut co, "C07", &v);
     // the sentinels prove that the storm was processed
-    let sentinel_answered = v.recvs.iter().any(|q| q.src.port() == (5000 + SENTINEL_SOCK % 50_000) as u16 && !q.answers.is_empty());
+    let sentinel_answered = v.recvs.iter().any(|q| q.src == crate::reqs::client_addr(SENTINEL_SOCK) && !q.answers.is_empty());
     if sentinel_answered {
         co.probe("sentinel_answered");
     }
